@@ -19,14 +19,14 @@ from vlib import harness, inputs
 READERS = ["map", "consensus", "topology"]
 
 
-def build_trace(seed, n_chains, clustered, tmp, iters=6):
+def build_trace(seed, n_chains, clustered, tmp, iters=6, n_mut=None, particles=4):
     """A trace written by the real writer (create_main_run_output) from real chain runs."""
     import phyclone.run as prun
     from phyclone.data.pyclone import load_data
     from phyclone.process_trace import create_main_run_output
 
     rng = np.random.default_rng([seed, n_chains, int(clustered), 20])
-    rows, samples = inputs.make_table(rng, 4 if not clustered else 6, 2)
+    rows, samples = inputs.make_table(rng, n_mut or (4 if not clustered else 6), 2)
     in_file = os.path.join(tmp, "in_%d_%d.tsv" % (n_chains, clustered))
     inputs.write_table(rows, in_file)
     cluster_file = None
@@ -48,9 +48,9 @@ def build_trace(seed, n_chains, clustered, tmp, iters=6):
 
     with contextlib.redirect_stdout(io.StringIO()):
         for ch, g in enumerate(rngs):
-            results[ch] = prun.run_phyclone_chain(1, True, 1.0, data, float("inf"), iters, 4, 1, 1, 0.1, 1000,
+            results[ch] = prun.run_phyclone_chain(1, True, 1.0, data, float("inf"), iters, particles, 1, 1, 0.1, 1000,
                                                   "semi-adapted", 0.5, g, smp, 1, ch, 0.2)
-    out = os.path.join(tmp, "trace_%d_%d.pkl.gz" % (n_chains, clustered))
+    out = os.path.join(tmp, "trace_%d_%d_%d.pkl.gz" % (n_chains, clustered, iters))
     create_main_run_output(cluster_file, out, results)
     return out
 
@@ -97,10 +97,15 @@ def prefix_task(task):
                 return {"size": size}, part
             full[r] = out
         cut = os.path.join(tmp, "cut.pkl.gz")
-        lo = task["part"] * size // task["parts"]
-        hi = (task["part"] + 1) * size // task["parts"]
+        if task.get("positions") is not None:
+            positions = task["positions"]
+            lo, hi = (positions[0], positions[-1] + 1) if positions else (0, 0)
+        else:
+            lo = task["part"] * size // task["parts"]
+            hi = (task["part"] + 1) * size // task["parts"]
+            positions = range(lo, hi)
         errors = {}
-        for n in range(lo, hi):
+        for n in positions:
             with open(cut, "wb") as fh:
                 fh.write(blob[:n])
             for r in READERS:
@@ -119,7 +124,7 @@ def prefix_task(task):
             part.see("cut|%d|%d|%d" % (task["chains"], int(task["clustered"]), n))
         for k, v in errors.items():
             part.count("reader_raised_" + k, v)
-        part.count("prefixes", hi - lo)
+        part.count("prefixes_sampled_long_trace" if task.get("positions") is not None else "prefixes", len(positions))
         if task["part"] == 0:
             part.sample({"chains": task["chains"], "clustered": task["clustered"], "file_size": size,
                          "prefix_range": [lo, hi], "errors": errors})
@@ -211,13 +216,14 @@ def run(ctx):
     ctx.level = "fault_enumeration"
     ctx.rule = ("crash points = every byte prefix (0..size-1) of trace files written by the real writer from real chain runs "
                 "(1 chain unclustered, 3 chains clustered; thorough adds 2 more), each read by map, consensus and "
-                "topology-report in-process; plus real `phyclone run` processes whose final write is cut at byte N by a "
+                "topology-report in-process; a long trace (1100 entries) at a stride of prefixes plus head and tail (quick) or "
+                "every prefix (thorough); plus real `phyclone run` processes whose final write is cut at byte N by a "
                 "failpoint (killed / ENOSPC) and read back by the real CLI; distinct = (trace, prefix length)")
     ctx.assumptions = ["a reader that loads the complete content from a prefix cut inside the 8-byte gzip trailer and "
                        "writes results identical to the complete file's is accepted",
                        "the trace is written by one gzip stream at the end of the run (create_main_run_output)"]
     traces = [(1, False), (3, True)] + ([] if quick else [(2, False), (4, True)])
-    parts = 6 if quick else 16
+    parts = 5 if quick else 16
     shared = tempfile.mkdtemp(prefix="verif_c20_traces_")
     try:
         tasks = []
@@ -234,6 +240,20 @@ def run(ctx):
         if not quick:
             wt += [{"kind": "writer", "seed": ctx.seed + 1, "chains": 2, "cuts": [c], "modes": [m]}
                    for c in (0.3, -5) for m in ("kill", "enospc")]
+        # a long trace (more than a thousand entries in one chain): every prefix in the thorough tier; in the quick tier a
+        # stride of prefixes with a seed-dependent offset plus the head and the tail exhaustively
+        long_path = build_trace(ctx.seed + 5, 1, False, shared, iters=1100, n_mut=2, particles=2)
+        lsize = os.path.getsize(long_path)
+        ctx.extra["long_trace_size"] = lsize
+        if quick:
+            stride = max(1, lsize // 2600)
+            pos = sorted(set(range(0, 64)) | set(range((ctx.seed * 7) % stride, lsize, stride)) | set(range(max(0, lsize - 400), lsize)))
+        else:
+            pos = list(range(lsize))
+        nparts = 10 if quick else 48
+        for p in range(nparts):
+            tasks.append({"kind": "prefix", "seed": ctx.seed, "chains": 1, "clustered": False, "trace": long_path,
+                          "positions": pos[p::nparts], "part": p, "parts": nparts, "long": True})
         ctx.map("checks.c20", "dispatch", wt + tasks, timeout=3000)
     finally:
         shutil.rmtree(shared, ignore_errors=True)
